@@ -35,6 +35,9 @@ fn positions() -> Vec<(&'static str, &'static str, &'static [&'static str])> {
         ("reduce step", "[1].reduce(a, i, $, 0)", &["reduce", "a", "i"]),
         ("f-string segment", "f'{$}'", &[]),
         ("f-string segment between text", "f'a{$}b'", &[]),
+        ("first of two f-string segments", "f'{$} and {recv}'", &["recv"]),
+        ("second of two f-string segments", "f'{recv} and {$}'", &["recv"]),
+        ("middle of three f-string segments", "f'{recv}{$}{recv}'", &["recv"]),
         ("index expression", "[1, 2][$]", &[]),
         ("indexed object", "$[0]", &[]),
         ("map key", "{$: 1}", &[]),
@@ -67,6 +70,9 @@ fn fillers() -> Vec<(&'static str, &'static [&'static str], &'static [&'static s
         ("(va + vb)", &["va", "vb"], &[]),
         ("([1].map(x, x)[0] + x)", &["x"], &["map"]),
         ("va.f", &["va"], &["f"]),
+        // variables spelled like built-in functions and macros
+        ("(max + filter)", &["max", "filter"], &[]),
+        ("[size, min][0]", &["size", "min"], &[]),
     ]
 }
 
